@@ -366,3 +366,6 @@ func storeFiles(dir string) []string {
 }
 
 func storeDirOf(dir string) string { return filepath.Join(dir, "store", "user-0") }
+
+func imapcQuote(s string) string          { return imapc.Quote(s) }
+func imapcEvs(r imapc.Result) []imapc.Ev { return imapc.Evs(r) }
